@@ -78,6 +78,22 @@ class Graph:
             s = self._state[n] = tlaval.parse_state(self.raw[n])
         return s
 
+    def nondeterministic(self, internal=()):
+        """does some state have several successors for one controlled action instance?"""
+        from .walk import base_name
+        internal = set(internal)
+        for u, d in self.out.items():
+            seen = {}
+            for lab, vs in d.items():
+                name, args = self.label(lab)
+                if name in internal:
+                    continue
+                key = (base_name(name), args)
+                seen[key] = seen.get(key, 0) + len(set(vs))
+                if seen[key] > 1:
+                    return True
+        return False
+
     def edges(self):
         for u, d in self.out.items():
             for lab, vs in d.items():
